@@ -1,6 +1,7 @@
 package checks
 
 import (
+	"context"
 	"fmt"
 	"strings"
 	"sync"
@@ -40,7 +41,7 @@ var packetKinds = []string{"fin", "rst", "short0", "zerolen", "cut", "badseq", "
 	"inject-rowsquery", "inject-intvar", "inject-rand", "inject-invalid",
 	"inject-baddecode-before", "inject-baddecode-after", "inject-baddecode-write", "inject-baddecode-delete",
 	"inject-hdronly-tablemap", "inject-hdronly-rows", "inject-hdronly-query", "inject-hdronly-fde", "inject-hdronly-rotate", "inject-hdronly-nocrc-rotate"}
-var txKinds = []string{"cancel-handler", "handler-err", "handler-err-cancel"}
+var txKinds = []string{"cancel-handler", "handler-err", "handler-err-cancel", "handler-ctxerr-cancel"}
 var mapperKinds = []string{"mapper-err", "mapper-count", "mapper-err-cancel", "mapper-count-cancel"}
 
 // preconnKinds fail the attempt before a reader exists.
@@ -86,7 +87,7 @@ func causeClass(k string) string {
 		return "undecodable-event"
 	case "inject-hdronly-tablemap", "inject-hdronly-rows", "inject-hdronly-query", "inject-hdronly-fde", "inject-hdronly-rotate", "inject-hdronly-nocrc-rotate":
 		return "undecodable-event"
-	case "handler-err", "handler-err-cancel":
+	case "handler-err", "handler-err-cancel", "handler-ctxerr-cancel":
 		return "handler"
 	case "mapper-err", "mapper-count", "mapper-err-cancel", "mapper-count-cancel":
 		return "mapper"
@@ -160,6 +161,11 @@ func randMsg(r *core.Rng) string {
 		"Got fatal error 1236", "misconfigured", "héllo wörld", "日本語のエラー", "log event entry exceeded max_allowed_packet",
 		"Client requested master to start replication from impossible position", "x"}
 	s := words[r.Intn(len(words))] + fmt.Sprintf(" #%d", r.Intn(1000000))
+	if r.Chance(1, 6) {
+		// a master (or a proxy in front of it) may word its error like the texts
+		// the library and the Go runtime use for their own conditions
+		s += []string{": context canceled", "; context deadline exceeded", ": EOF", " stream reached EOF", ": invalid connection", " bad connection", " use of closed network connection"}[r.Intn(7)]
+	}
 	return s
 }
 
@@ -288,6 +294,8 @@ func runAttempt(c *core.Ctx, s *run.Session, l *hist.Layout, start hist.Pos, spe
 			hs.ErrAt = at
 		case "handler-err-cancel": // the caller cancels while the handler is running, and the handler then fails
 			hs.ErrAt, hs.CancelAt = at, at
+		case "handler-ctxerr-cancel": // ... and what the handler returns is the context's own error (a handler that forwards on a channel and gives up on ctx.Done())
+			hs.ErrAt, hs.CancelAt, hs.ErrValue = at, at, context.Canceled
 		default:
 			hs.CancelAt = at
 		}
